@@ -366,7 +366,7 @@ class Eval:
             arms = []
             envs = []
             live = e["arms"]
-            if isinstance(sc, tuple) and sc and sc[0] == "ctor":
+            if isinstance(sc, tuple) and sc and (sc[0] == "ctor" or (sc[0] == "list" and sc[1] and all(isinstance(x, tuple) and x and x[0] in ("ctor", "lit") for x in sc[1]))):
                 # the scrutinee is a literal constructor: drop the arms it cannot take, stop at the first it must take
                 live = []
                 for a in e["arms"]:
